@@ -311,6 +311,58 @@ package graphql
 //@   ensures result.hasVariables <==> ((len(argDefs) != 0 || len(argASTs) != 0) && astHasVariables_0(argASTs))
 //@   ensures result.hasVariables ==> result.argASTs == argASTs && result.fieldDefArgs == argDefs
 
+// ---- the overlapping-fields rule: what is compared with what (C02) ----
+// C02: "no document is accepted in which two fields that can land on the same response key of the
+// same object differ ..., however deeply the second one is nested in fragment spreads". The four
+// drivers must hand the SAME collection of fields (resp. the same fragment) down every level of
+// nested spreads, visit every spread name, and key the memo tables by exactly the compared triple.
+
+//@ func overlappingFieldsCanBeMergedRule.findConflictsWithinSelectionSet
+//@   props C02
+//@   nosafety
+//@   at call collectConflictsWithin: assert arg2 == fieldsInfo
+//@   at call collectConflictsBetweenFieldsAndFragment: assert arg2 == false && arg3 == fieldsInfo && 0 <= i && i < len(fieldsInfo.fragmentNames) && arg4 == fieldsInfo.fragmentNames[i]
+//@   at call collectConflictsBetweenFragments: assert arg2 == false && i < k && k < len(fieldsInfo.fragmentNames) && arg3 == fieldsInfo.fragmentNames[i] && arg4 == fieldsInfo.fragmentNames[k]
+//@   loop 1 invariant 0 <= i
+//@   loop 1 ensures i == atloop(1, i) + 1 && calls("collectConflictsBetweenFieldsAndFragment") == atloop(1, calls("collectConflictsBetweenFieldsAndFragment")) + 1
+//@   loop 2 invariant i + 1 <= k
+//@   loop 2 ensures k == atloop(2, k) + 1 && calls("collectConflictsBetweenFragments") == atloop(2, calls("collectConflictsBetweenFragments")) + 1
+
+//@ func overlappingFieldsCanBeMergedRule.collectConflictsBetweenFieldsAndFragment
+//@   props C02 C19
+//@   nosafety
+//@   at call Has: assert arg0 == rule.comparedFieldsAndFragmentSet && arg1 == fieldsInfo && arg2 == fragmentName && arg3 == areMutuallyExclusive
+//@   at call Add: assert arg0 == rule.comparedFieldsAndFragmentSet && arg1 == fieldsInfo && arg2 == fragmentName && arg3 == areMutuallyExclusive
+//@   at call collectConflictsBetween: assert arg2 == areMutuallyExclusive && arg3 == fieldsInfo && arg4 == fieldsInfo2
+//@   at call collectConflictsBetweenFieldsAndFragment: assert arg2 == areMutuallyExclusive && arg3 == fieldsInfo && arg4 == fragmentName2
+//@   loop 1 ensures calls("collectConflictsBetweenFieldsAndFragment") == atloop(1, calls("collectConflictsBetweenFieldsAndFragment")) + 1
+//@   at[C19] return: assert calls("collectConflictsBetween") <= 1 && (calls("collectConflictsBetween") == 1 ==> calls("Add") == 1)
+
+//@ func overlappingFieldsCanBeMergedRule.collectConflictsBetweenFragments
+//@   props C02 C19
+//@   nosafety
+//@   at call Has: assert arg0 == rule.comparedSet && arg1 == fragmentName1 && arg2 == fragmentName2 && arg3 == areMutuallyExclusive
+//@   at call Add: assert arg0 == rule.comparedSet && arg1 == fragmentName1 && arg2 == fragmentName2 && arg3 == areMutuallyExclusive
+//@   at call collectConflictsBetween: assert arg2 == areMutuallyExclusive && arg3 == fieldsInfo1 && arg4 == fieldsInfo2
+//@   at call collectConflictsBetweenFragments#1: assert arg2 == areMutuallyExclusive && arg3 == fragmentName1 && arg4 == innerFragmentName2
+//@   at call collectConflictsBetweenFragments#2: assert arg2 == areMutuallyExclusive && arg3 == innerFragmentName1 && arg4 == fragmentName2
+//@   loop 1 ensures calls("collectConflictsBetweenFragments") == atloop(1, calls("collectConflictsBetweenFragments")) + 1
+//@   loop 2 ensures calls("collectConflictsBetweenFragments") == atloop(2, calls("collectConflictsBetweenFragments")) + 1
+//@   at[C19] return: assert calls("collectConflictsBetween") <= 1 && (calls("collectConflictsBetween") == 1 ==> calls("Add") == 1)
+
+//@ func overlappingFieldsCanBeMergedRule.findConflictsBetweenSubSelectionSets
+//@   props C02
+//@   nosafety
+//@   at call getFieldsAndFragmentNames#1: assert arg1 == parentType1 && arg2 == selectionSet1
+//@   at call getFieldsAndFragmentNames#2: assert arg1 == parentType2 && arg2 == selectionSet2
+//@   at call collectConflictsBetween: assert arg2 == areMutuallyExclusive && arg3 == fieldsInfo1 && arg4 == fieldsInfo2
+//@   at call collectConflictsBetweenFieldsAndFragment#1: assert arg2 == areMutuallyExclusive && arg3 == fieldsInfo1 && arg4 == fragmentName2
+//@   at call collectConflictsBetweenFieldsAndFragment#2: assert arg2 == areMutuallyExclusive && arg3 == fieldsInfo2 && arg4 == fragmentName1
+//@   at call collectConflictsBetweenFragments: assert arg2 == areMutuallyExclusive && arg3 == fragmentName1 && arg4 == fragmentName2
+//@   loop 1 ensures calls("collectConflictsBetweenFieldsAndFragment") == atloop(1, calls("collectConflictsBetweenFieldsAndFragment")) + 1
+//@   loop 2 ensures calls("collectConflictsBetweenFieldsAndFragment") == atloop(2, calls("collectConflictsBetweenFieldsAndFragment")) + 1
+//@   loop 4 ensures calls("collectConflictsBetweenFragments") == atloop(4, calls("collectConflictsBetweenFragments")) + 1
+
 // ---- memo tables of the overlapping-fields rule (C02 soundness of memo hits, C19 memo effectiveness) ----
 
 //@ func fieldsAndFragmentSet.Has
